@@ -223,6 +223,11 @@ def _blank(c):
     return c["text"].strip() == ""
 
 
+def _unpad(text):
+    """the text with the blanks behind a blank comment removed (the only difference BlankCommentPadded makes)"""
+    return "\n".join(l.rstrip(" ") if l.strip() == "//" else l for l in text.split("\n"))
+
+
 def run_jobs(h, jobs):
     """jobs: dicts with text and optionally exp (normal form), cms, canon_code, canon_design, devs.
     -> per job a dict(issues=[(what, key, detail)], f1, ntoks, ncomments, skipped)."""
@@ -303,7 +308,7 @@ def run_jobs(h, jobs):
                 if same:
                     issue("fixed-point", None, f1=f1, err=f2.get("err"))
             elif f2["text"] != f1:
-                if any(_blank(c) for c in sc1["comments"]):
+                if any(_blank(c) for c in sc1["comments"]) and _unpad(f2["text"]) == _unpad(f1):
                     issue("fixed-point", "dev:BlankCommentPadded", f1=f1, f2=f2["text"])
                 else:
                     for k in (devkeys if not same else [None]):
@@ -582,8 +587,7 @@ def gen_programs(tier, gd, cmds, counts):
         for c in cases:
             try:
                 p = F.make_parseable(F.from_gen(c["prog"]))
-                F.Emitter(F.Style(random.Random(0), plain=True)).stmt  # noqa
-                for s in p:
+                for s in p:                       # renderable at all (no negative literal ...)?
                     F.Emitter(F.Style(random.Random(0), plain=True)).stmt(s)
             except (F.Unrenderable, ValueError):
                 continue
@@ -599,10 +603,10 @@ def gen_programs(tier, gd, cmds, counts):
 
 def main(tier, replay=None):
     t0 = time.time()
-    rep = C.Reporter(PID)
     hp = C.ensure_harness()
     if replay:
-        return do_replay(hp, replay)
+        return do_replay(hp, os.path.abspath(replay))      # (before Reporter(), which clears replays/C05)
+    rep = C.Reporter(PID)
     sd = C.seed()
     kd = known_devs()
     kcanon = [d for d in kd if d in CANON_DEVS]
@@ -699,7 +703,6 @@ def main(tier, replay=None):
     items = []
     canon_cases = sorted(rc.replays, key=lambda c: c["n"])
     if quick:
-        r0 = random.Random(sd)
         # every literal / range / name / constraint program, and a seeded third of the compound ones
         canon_cases = [c for c in canon_cases if c["n"] % 3 == sd % 3 or len(json.dumps(c["prog"])) < 260]
     for c in canon_cases:
@@ -714,6 +717,23 @@ def main(tier, replay=None):
         items.append(("gen:%s:%d" % (fam, i), p, rfid.s(c["code"]), rfid.s(c["design"]), c["devs"],
                       sd * 1000003 + 500000 + i, K, 0.25))
     stats["gen_programs"] = len(gprogs)
+    seen_place = {"yes": 0, "na": 0, "look": 0, "glue": 0, "frag": 0}
+    for c in rp.replays:
+        seen_place[c["design"]["fixed"]] = seen_place.get(c["design"]["fixed"], 0) + 1
+        seen_place["look"] += c["lay"]["look"]
+        seen_place["glue"] += c["lay"]["glue"] > 0
+        seen_place["frag"] += any(l["cm"] != "no" and l["f"] != ["sp", "x"] for l in c["lay"]["lines"])
+    if not all(seen_place[k] for k in ("yes", "na", "look", "glue", "frag")):
+        raise C.ToolError("vacuous placer sample: %r" % seen_place)
+    if os.environ.get("VERIF_C05_DEMO"):
+        # binding demonstration: one altered prediction of each kind must be reported
+        it = list(items[0])
+        it[2], it[3] = it[2] + " ", it[3] + " "
+        items[0] = tuple(it)
+        demo = json.loads(json.dumps(next(c for c in rp.replays if len(c["design"]["out"]) >= 3)))
+        for v in (demo["design"], demo["code"]):
+            v["out"] = v["out"][::-1]
+        rp.replays.append(demo)
     results = C.proc_map(hp, work_programs, items, chunk=60, workers=10)
     # ---- replay: the placer's layouts
     pitems = [(c, sd * 1000003 + i) for i, c in enumerate(rp.replays)]
@@ -777,7 +797,7 @@ def main(tier, replay=None):
         "samples": samples or [{"note": "no sample matched the sampling rule"}],
         "stats": stats,
         "known_deviations": kd,
-        "exhaustive": True,
+        "exhaustive": False,
         "exhaustive_note": "the canon domain (DomSize %s) and the placer layouts (MaxL %s) are complete enumerations in the model; "
                            "replay covers %s; the Gen `sim` family and the layouts are seeded samples"
                            % ("2" if quick else "3", place_consts["MaxL"],
